@@ -146,6 +146,8 @@ class HexFile:
                     r1.add_data(r2.data)
                     self.regions.remove(r2)
                     change = True
+                    # The zipped pairs are stale now, rescan the regions:
+                    break
                 elif r1.end_address > r2.address:
                     raise HexFileException("Overlapping regions")
 
